@@ -184,10 +184,18 @@ func HarnessFail(format string, a ...any) {
 
 // Budget scales a duration budget by tier: quick q, thorough t.
 func Budget(q, t time.Duration) time.Duration {
+	d := q
 	if Thorough() {
-		return t
+		d = t
 	}
-	return q
+	// development aid (smoke-testing a tier's code paths in a fraction of its time): VERIF_BUDGET_SCALE=0.1 shrinks every
+	// section budget; never set by a registered command, and a budget that is hit is reported as exhaustive:false
+	if v := os.Getenv("VERIF_BUDGET_SCALE"); v != "" {
+		if f, err := strconv.ParseFloat(v, 64); err == nil && f > 0 {
+			d = time.Duration(float64(d) * f)
+		}
+	}
+	return d
 }
 
 // Main is the TestMain of every check binary.
